@@ -174,10 +174,10 @@ def run(prop, tier, seed, t0):
     bins, notes, failed = plan.bins_for(cfgs, ('rel', 'chk') if tier == 'thorough' else ('rel',))
     if failed:
         return plan.fail_build(prop, failed)
-    size = 320 if tier == 'quick' else 10000
-    nt = 8 if tier == 'quick' else 32
+    size = 320 if tier == 'quick' else 40000
+    nt = 8 if tier == 'quick' else 64
     tasks = plan.spread_tasks('vlib.props.c07', 'task', prop, seed, size, plan.plain(bins), ntasks=nt)
-    tasks.append(('vlib.props.c07', 'task', prop, 7, 0, plan.plain(bins), {'iters': 1000 if tier == 'quick' else 20000}))
+    tasks.append(('vlib.props.c07', 'task', prop, 7, 0, plan.plain(bins), {'iters': 1000 if tier == 'quick' else 100000}))
     m = core.run_tasks(tasks)
     return core.finish(prop, tier, seed, t0, m,
                        rule='(k,u) pairs over constructed u classes (small order, twist, non-canonical, bit 255, on curve) through '
